@@ -190,7 +190,11 @@ func (w *qworker) run(e *qexec) {
 		evn := qevent{Worker: w.name, Op: op, Call: hx.Stamp(), Val: -1}
 		switch op.Kind {
 		case "push":
-			e.q.Push([]byte{byte(op.ID)})
+			if op.ID == 0 {
+				e.q.Push(nil) // the end-of-stream marker the downloader queues after the last segment
+			} else {
+				e.q.Push([]byte{byte(op.ID)})
+			}
 			evn.OK = true
 		case "wait":
 			evn.OK = e.q.WaitUntilSizeIsBelow(e.ctx, op.N)
@@ -199,6 +203,8 @@ func (w *qworker) run(e *qexec) {
 			evn.OK = ok
 			if ok && len(b) == 1 {
 				evn.Val = int(b[0])
+			} else if ok && b == nil {
+				evn.Val = 0 // the end marker
 			}
 		}
 		evn.Ret = hx.Stamp()
@@ -501,7 +507,11 @@ func scriptStr(ops []qop) string {
 	for _, o := range ops {
 		switch o.Kind {
 		case "push":
-			s = append(s, fmt.Sprintf("push%d", o.ID))
+			if o.ID == 0 {
+				s = append(s, "end")
+			} else {
+				s = append(s, fmt.Sprintf("push%d", o.ID))
+			}
 		case "wait":
 			s = append(s, fmt.Sprintf("wait<=%d", o.N))
 		default:
@@ -537,6 +547,14 @@ func checkC20(tier string, seed int64) int {
 		return append(p, qop{Kind: "wait", N: n})
 	}
 	prods = append(prods, mk(3, 2), mk(4, 2), mk(4, 3))
+	// the end-of-stream marker (a nil entry) is an entry like any other: it must wake a parked
+	// processor and be delivered after the segments
+	end := qop{Kind: "push", ID: 0}
+	prods = append(prods,
+		[]qop{end},
+		[]qop{{Kind: "push", ID: 1}, end},
+		[]qop{{Kind: "push", ID: 1}, {Kind: "wait", N: 1}, end},
+		[]qop{{Kind: "push", ID: 1}, {Kind: "push", ID: 2}, {Kind: "wait", N: 1}, end})
 	execs := 0
 	sigs := map[string]bool{}
 	windows := 0
